@@ -261,3 +261,62 @@ Proof.
 Qed.
 
 End Thms.
+
+(* ---------- C12 (d): a Ctx goes back to the pool only when the connection has let go of it ---------- *)
+Section Pool.
+Context {hstate : Type}.
+Variable dec_field : hstate -> N -> bytes -> dec_res hstate.
+Variable enc_field : hstate -> bytes -> bytes -> bool -> bytes * hstate.
+Variable enc_set_max : hstate -> N -> hstate.
+Variable cfg : cl_config.
+Variable h0 : hstate.
+Variable first : bytes.
+Implicit Types c : cconn hstate.
+Notation step := (cl_step dec_field enc_field enc_set_max cfg).
+Notation run := (cl_run dec_field enc_field enc_set_max cfg h0 first).
+Notation reach := (cl_reachable dec_field enc_field enc_set_max cfg h0 first).
+
+(* markFinished comes after the connection has dropped the request: a finished Ctx is neither queued nor on the table *)
+Theorem finished_not_held evs t x : cl_ctx_get (run evs) t = Some x -> ct_finished x = true ->
+  ~ In t (cc_inQ (run evs)) /\ ~ In t (map snd (cc_reqQueued (run evs))) /\ ~ In t (map pb_tag (cc_pending (run evs))).
+Proof.
+  intros G F. destruct (inv_run dec_field enc_field enc_set_max cfg h0 first evs) as [_ A].
+  destruct (a_fin _ A _ _ G F) as [H HP]. split; [intro J; apply H; left; exact J|]. split; [intro J; apply H; right; exact J|].
+  intro J. apply in_map_iff in J. destruct J as (pb & E & J). apply (HP pb J E).
+Qed.
+
+(* releaseCtx (the pool item) only in the caller's receive, for a Ctx the connection has marked finished - hence
+   (finished_not_held) dropped from `in` and from the request table, before and after the step - and whose cancel timer
+   is stopped: not armed, or armed and not yet run out (Stop succeeded). Afterwards the Ctx is taken back (done, resolved:
+   every later resolve is a no-op) and its timer disarmed (a CEvTimeout for it is a no-op) *)
+Theorem pool_put_safe c e l t : reach c -> cc_out (step c e) = l ++ cc_out c -> In (COPoolPut t) l ->
+  e = CEvReceive t /\
+  exists x, cl_ctx_get c t = Some x /\ ct_finished x = true /\ (ct_armed x = true -> ct_fired x = false) /\
+            ~ In t (cc_inQ c) /\ ~ In t (map snd (cc_reqQueued c)) /\ ~ In t (map pb_tag (cc_pending c)) /\
+            cc_inQ (step c e) = cc_inQ c /\ cc_reqQueued (step c e) = cc_reqQueued c /\ cc_pending (step c e) = cc_pending c /\
+            cl_ctx_get (step c e) t = Some (recv_ctx x) /\ ct_pooled (recv_ctx x) = true /\
+            ct_armed (recv_ctx x) = false /\ ct_done (recv_ctx x) = true /\ ct_resolved (recv_ctx x) = true.
+Proof.
+  intros R Hl Hin. pose proof (inv_reach dec_field enc_field enc_set_max cfg h0 first c R) as Hi.
+  destruct (ss_out _ _ _ _ (sum_any dec_field enc_field enc_set_max cfg c e Hi)) as (l' & Hl' & Fl & _).
+  rewrite Hl' in Hl. apply app_inv_tail in Hl. subst l'. rewrite Forall_forall in Fl.
+  destruct (Fl _ Hin) as [B|(-> & x & G & Rt & Er & Fi & Tm)]; [discriminate|]. split; [reflexivity|].
+  exists x. destruct (cl_reachable_run _ _ _ _ _ _ _ _ R) as [evs ->].
+  destruct (finished_not_held evs t x G Fi) as (N1 & N2 & N3).
+  assert (ST : step (run evs) (CEvReceive t) = (if (if ct_armed x then negb (ct_fired x) else true) && ct_finished x
+                then cl_note (cl_note (cl_ctx_put (run evs) (recv_ctx x)) (COResult t (cl_retryable match ct_err x with Some e => e | None => CENil end)
+                                                                     match ct_err x with Some e => e | None => CENil end (ct_resp x))) (COPoolPut t)
+                else cl_note (cl_ctx_put (run evs) (recv_ctx x)) (COResult t (cl_retryable match ct_err x with Some e => e | None => CENil end)
+                                                                     match ct_err x with Some e => e | None => CENil end (ct_resp x)))).
+  { cbn [cl_step]. unfold cl_receive. rewrite G, Rt. destruct (ct_err x) as [er|] eqn:E; [|congruence].
+    destruct (inv_run dec_field enc_field enc_set_max cfg h0 first evs) as [St _].
+    cbn [ct_lckStuck ctu_armed ctu_err]. rewrite (proj1 (s_nostuck _ St) _ _ G). reflexivity. }
+  destruct (cl_ctxs_get_In _ _ _ G) as [_ T].
+  assert (GP : cl_ctx_get (cl_ctx_put (run evs) (recv_ctx x)) t = Some (recv_ctx x)).
+  { rewrite cl_ctx_get_put. cbn [ct_tag recv_ctx ctu_pooled ctu_returned ctu_resolved ctu_done ctu_armed ctu_err]. rewrite T, N.eqb_refl, G. reflexivity. }
+  assert (PL : ct_pooled (recv_ctx x) = true).
+  { cbn. destruct (ct_armed x) eqn:Ar; [rewrite (Tm eq_refl)|]; cbn; exact Fi. }
+  repeat split; auto; rewrite ST; destruct (_ && _); try reflexivity; exact GP.
+Qed.
+
+End Pool.
